@@ -279,7 +279,7 @@ func RunArtela(sc *Scenario, opt ArtelaOpts) *ArtelaRun {
 			if opt.OnTransfer != nil {
 				opt.OnTransfer(st, evm, from, to, amt, true)
 			}
-			ev := Ev{K: EvTransfer, From: from, To: to, Value: cpBig(amt), BalFromBefore: cpBig(st.GetBalance(from)), BalToBefore: cpBig(st.GetBalance(to))}
+			ev := Ev{K: EvTransfer, From: from, To: to, Value: cpBig(amt), BalFromBefore: cpBig(st.GetBalance(from)), BalToBefore: cpBig(st.GetBalance(to)), CodeLen: len(st.GetCode(to))}
 			if opt.DigestAt != nil {
 				ev.Digest = opt.DigestAt(st)
 			}
